@@ -636,7 +636,7 @@ class RunLength2dArray(IndexableMixin, np.lib.mixins.NDArrayOperatorsMixin):
         if isinstance(inputs[1], (Number, np.ndarray)):
             return self.__class__(self._indices, ufunc(self._values, inputs[1]), self._row_len)
         elif isinstance(inputs[0], (Number, np.ndarray)):
-            return self.__class__(self._indices, ufunc(self._values, inputs[0]), self._row_len)
+            return self.__class__(self._indices, ufunc(inputs[0], self._values), self._row_len)
         return NotImplemented
 
     def any(self, axis: int = None, out=None) -> ArrayLike:
